@@ -260,7 +260,8 @@ func argvOp(c *Ctx, line string) {
 		hs[i] = hx(t)
 	}
 	c.Emit(line, "argv:"+strings.Join(hs, ","), len(argv) > 2)
-	// known divergences from go-redis, judged here (also on replay) and reported with stable keys
+	// divergences from go-redis repaired by `fix:` commits; still judged here (also on replay) with
+	// stable keys so that a regression is reported as a failing input
 	if w[0] == "argv" && w[1] == "GetEx" && len(vs) == 2 && vs[1].kind == "i" && vs[1].i == 0 &&
 		!(len(argv) == 3 && strings.EqualFold(argv[2], "PERSIST")) {
 		c.Fail("argv:GetEx:zero-expiration-no-persist", line,
@@ -325,12 +326,7 @@ func runArgv(c *Ctx) {
 		emit(true, "Set", k, v, I(d))
 		emit(true, "SetNX", k, v, I(d))
 		emit(true, "SetXX", k, v, I(d))
-		if d == 0 {
-			// known divergence, judged here: go-redis sends GETEX key PERSIST
-			emit(false, "GetEx", k, I(0))
-		} else {
-			emit(true, "GetEx", k, I(d))
-		}
+		emit(true, "GetEx", k, I(d)) // d == 0 must send PERSIST (judged in argvOp as well)
 		for _, m := range []string{"Expire", "ExpireNX", "ExpireXX", "ExpireGT", "ExpireLT", "PExpire"} {
 			emit(true, m, k, I(d))
 		}
@@ -381,9 +377,9 @@ func runArgv(c *Ctx) {
 		}
 	}
 	{
-		// known divergence, judged here: go-redis omits TYPE for an empty keyType
-		emit(false, "ScanType", I(0), S(""), I(0), S(""))
-		emit(false, "ScanType", I(5), S("u_*"), I(10), S(""))
+		// go-redis omits TYPE for an empty keyType (judged in argvOp as well)
+		emit(true, "ScanType", I(0), S(""), I(0), S(""))
+		emit(true, "ScanType", I(5), S("u_*"), I(10), S(""))
 	}
 	// random joint values
 	for i := 0; i < c.N; i++ {
@@ -400,9 +396,7 @@ func runArgv(c *Ctx) {
 		case 2:
 			emit(true, "SetArgs", k, v, S([]string{"", "NX", "xx"}[c.Rng.IntN(3)]), I(d), B(c.Rng.IntN(2) == 0), I(int64(c.Rng.IntN(2000000000))), B(c.Rng.IntN(2) == 0), B(c.Rng.IntN(2) == 0))
 		case 3:
-			if d != 0 {
-				emit(true, "GetEx", k, I(d))
-			}
+			emit(true, "GetEx", k, I(d))
 		case 4:
 			emit(true, "PExpire", k, I(d))
 		}
